@@ -2261,8 +2261,17 @@ class ModelWorld(BaseWorld):
         from maltoolbox.attackgraph import AttackGraph
         from maltoolbox.attackgraph.analyzers.apriori import calculate_viability_and_necessity
         db = op.get('db', 0)
-        g = call(AttackGraph, self.lg, model)
+        # (generation is C01/C02 territory and not judged here.  The step-expression
+        # evaluator follows transitive expressions without a visited set: on a densely and
+        # cyclically linked model it takes minutes before it gives up - cut short)
+        from .world import time_limit
+
+        def generate():
+            with time_limit(6.0):
+                return AttackGraph(self.lg, model)
+        g = call(generate)
         if g.raised:
+            self.count('out:graph_generation_failed_' + type(g.exc).__name__)
             return 'generation_failed'      # C01/C02 territory
         g = g.value
         if op.get('attach'):
